@@ -168,7 +168,7 @@ def tieStats {n : Nat} (cand : Nat → Solution n Float) (r : Region n Float) : 
 /-- Gaussian elimination with partial pivoting on a `k×k` system; `none` if a pivot is zero /
     non-finite or the pivots spread over more than 4 decades (then Eigen's pseudo-inverse and an
     exact solve may legitimately differ). -/
-def gauss (k : Nat) (A : Fin k → Fin k → Float) (b : Fin k → Float) : Option (Array Float) := Id.run do
+def gaussCore (spread : Bool) (k : Nat) (A : Fin k → Fin k → Float) (b : Fin k → Float) : Option (Array Float) := Id.run do
   let mut M : Array (Array Float) := (Array.ofFn fun i : Fin k => (Array.ofFn fun j : Fin k => A i j).push (b i))
   let mut pmin : Float := 1.0 / 0.0
   let mut pmax : Float := 0
@@ -190,8 +190,28 @@ def gauss (k : Nat) (A : Fin k → Fin k → Float) (b : Fin k → Float) : Opti
         let row := M.getD r #[]
         let f := row.getD col 0
         M := M.set! r ((Array.range (k + 1)).map fun j => row.getD j 0 - f * prow.getD j 0)
-  if !(pmin / pmax ≥ 1e-4) then return none
+  if spread && !(pmin / pmax ≥ 1e-4) then return none
   return some ((Array.range k).map fun i => (M.getD i #[]).getD k 0)
+
+def gauss (k : Nat) (A : Fin k → Fin k → Float) (b : Fin k → Float) : Option (Array Float) := gaussCore true k A b
+
+/-- `‖A‖∞ · ‖A⁻¹‖∞`, an upper bound of the spectral condition number of the symmetric `A` (λmax ≤ ‖A‖∞,
+    1/λmin ≤ ‖A⁻¹‖∞); `+∞` when the elimination breaks down.  `QEF::solve` discards eigenvalues below
+    `1e-12 · λmax`: a system with a bound ≤ 1e6 keeps them all, so the exact solve and the real
+    pseudo-inverse must agree; pivot sizes alone do not tell (a pivot order through an off-diagonal entry
+    hides a 1e-48 eigenvalue behind two pivots of 1e-24). -/
+def condInf (k : Nat) (A : Fin k → Fin k → Float) : Float := Id.run do
+  let rowSum := fun (f : Fin k → Fin k → Float) =>
+    (List.finRange k).foldl (fun a i =>
+      let r := (List.finRange k).foldl (fun r j => r + (f i j).abs) 0.0
+      if r > a then r else a) 0.0
+  let mut cols : Array (Array Float) := #[]
+  for j in List.finRange k do
+    match gaussCore false k A (fun i => if i = j then 1.0 else 0.0) with
+    | some x => cols := cols.push x
+    | none => return 1.0 / 0.0
+  let inv : Fin k → Fin k → Float := fun i j => (cols.getD j.val #[]).getD i.val 0
+  return rowSum A * rowSum inv
 
 /-- an (almost) exact inner solver for the model: Gaussian elimination; rank 0 = "not judged" -/
 def gaussSolver : Solver Float := fun m A b t =>
@@ -296,7 +316,8 @@ def checkCase (c : Case) : List String := Id.run do
     let kk := (freeAxes n nb).length + 1
     let amax := (List.finRange kk).foldl (fun a i => (List.finRange kk).foldl (fun a j =>
       let x := (q.reducedAtA nb i j).abs; if x > a then x else a) a) 0.0
-    if amax ≥ 1e-30 && (gauss ((freeAxes n nb).length + 1) (q.reducedAtA nb) (q.reducedAtB shrunkReal nb)).isSome
+    if amax ≥ 1e-30 && condInf kk (q.reducedAtA nb) ≤ 1e6
+        && (gauss ((freeAxes n nb).length + 1) (q.reducedAtA nb) (q.reducedAtB shrunkReal nb)).isSome
         && real.value.isFinite && (List.finRange n).all (fun i => (real.position i).isFinite) then
       let mc := q.solveConstrained gaussSolver shrunkReal nb tpos tval
       judged := judged + 1
